@@ -1,20 +1,54 @@
 package main
 
-var gbnFns = []string{}
-
 func q(params map[string]int) *TierOpt { return &TierOpt{Params: params} }
 
+func P(kv ...interface{}) map[string]int {
+	m := map[string]int{}
+	for i := 0; i+1 < len(kv); i += 2 {
+		m[kv[i].(string)] = kv[i+1].(int)
+	}
+	return m
+}
+
+var commonAssumptions = []string{
+	"go/ssa semantics as implemented by the engine (every counterexample is replayed against the natively compiled code before it is reported)",
+	"logging (btclog.Logger), fmt.Sprintf/Errorf are empty stubs; error identity is exact",
+	"sync/atomic/time/context are engine models (DESIGN.md section 4); memory model is sequentially consistent",
+}
+
 var props = map[string]*Prop{
+	"C01": {
+		ID: "C01",
+		Runs: []Run{
+			{Pkg: "gbn", Harness: "VH_C01_RecvStep", MustReach: []string{"recv-step"},
+				What:  "O1: one iteration of the real receivePacketsForever for any DATA packet the channel invariant allows in flight (ghost offset delta in [-n,n)), n symbolic 1..254",
+				Quick: q(P("maxlen", 2)), Thorough: q(P("maxlen", 6))},
+			{Pkg: "gbn", Harness: "VH_C01_AckGhost", MustReach: []string{"ack-ghost"}, What: "O2: processACK in ghost terms: base offset becomes max(0,alpha+1) <= rho", Quick: q(nil)},
+			{Pkg: "gbn", Harness: "VH_C01_NackGhost", MustReach: []string{"nack-ghost"}, What: "O3: processNACK in ghost terms: base offset becomes nu <= rho", Quick: q(nil)},
+			{Pkg: "gbn", Harness: "VH_C09_Add", MustReach: []string{"add"}, What: "O4: addPacket labels the packet with the old top and grows the window by one", Quick: q(nil)},
+			{Pkg: "gbn", Harness: "VH_C01_Resend", MustReach: []string{"resend"}, What: "O5: resend transmits exactly the outstanding packets, in order, from their slots (s <= maxn+1, base symbolic)",
+				Quick: q(P("maxn", 4)), Thorough: q(P("maxn", 8))},
+			{Pkg: "gbn", Harness: "VH_C09_Config", MustReach: []string{"config"}, What: "O6: s = n+1, content has s slots", Quick: q(nil)},
+		},
+		Assumptions: append([]string{"channel invariant of DESIGN.md Appendix C (per-direction FIFO with loss and in-place duplication): in-flight DATA has ghost offset in [rho-n, tau), ACK in [-1, rho), NACK in [0, rho]"}, commonAssumptions...),
+		Bounds:      []string{"window size n symbolic 1..254 in O1-O4,O6; n<=4 (quick) / 8 (thorough) in O5; payload 0..2 / 0..6 symbolic bytes"},
+		Outside:     []string{"reordering or forging transports (excluded by the statement)", "whole-endpoint interleavings beyond the bounded runs"},
+	},
 	"C07": {
 		ID: "C07",
 		Runs: []Run{
 			{Pkg: "gbn", Harness: "VH_C07_Deserialize", MustReach: []string{"deserialize"},
-				What:     "gbn.Deserialize on every byte string of length 0..maxlen (contents symbolic): no run-time panic, never (nil,nil)",
-				Quick:    q(map[string]int{"maxlen": 8}),
-				Thorough: q(map[string]int{"maxlen": 64})},
+				What:  "gbn.Deserialize on every byte string of length 0..maxlen (contents symbolic): no run-time panic, never (nil,nil)",
+				Quick: q(P("maxlen", 8)), Thorough: q(P("maxlen", 64))},
+			{Pkg: "gbn", Harness: "VH_C07_RecvLoopStep", MustReach: []string{"loop-step"},
+				What:  "one iteration of the live receive loop from an arbitrary in-range window, arbitrary packet bytes of length 0..maxlen, every window size: no panic, bookkeeping stays in range",
+				Quick: q(P("maxlen", 5)), Thorough: q(P("maxlen", 8))},
+			{Pkg: "gbn", Harness: "VH_C07_ServerSYN", MustReach: []string{"data-phase"}, Synctest: true,
+				What:  "real NewServerConn with every value 0..255 of the SYN window field, then SYNACK and a DATA packet",
+				Quick: q(nil)},
 		},
-		Assumptions: []string{},
-		Bounds:      []string{"packet length 0..8 (quick) / 0..64 (thorough), all byte values"},
+		Assumptions: commonAssumptions,
+		Bounds:      []string{"packet length 0..8 (quick) / 0..64 (thorough), all byte values; all 256 SYN window values; all 256 ACK/NACK values x all (base,top) x all n"},
 		Outside:     []string{"regexp/protojson JSON envelope (not encodable)"},
 	},
 	"C09": {
@@ -25,32 +59,49 @@ var props = map[string]*Prop{
 			{Pkg: "gbn", Harness: "VH_C09_Add", MustReach: []string{"add"}, What: "addPacket from any non-full window", Quick: q(nil)},
 			{Pkg: "gbn", Harness: "VH_C09_Contains", MustReach: []string{"contains"}, What: "containsSequence vs modular-interval reference", Quick: q(nil)},
 			{Pkg: "gbn", Harness: "VH_C09_Config", MustReach: []string{"config"}, What: "newConfig/setN: s=n+1, content has s slots", Quick: q(nil)},
+			{Pkg: "gbn", Harness: "VH_C07_ServerSYN", MustReach: []string{"data-phase"}, Synctest: true, What: "negotiated window: server's n equals the SYN's N, s=n+1 does not wrap (all 256 values)", Quick: q(nil)},
 		},
-		Bounds: []string{"window size n symbolic in 1..254; base, top, seq full 8-bit domains"},
-	},
-	"C19": {
-		ID: "C19",
-		Runs: []Run{
-			{Pkg: "gbn", Harness: "VH_C19_GBN_RT", MustReach: []string{"roundtrip"}, What: "Deserialize(Serialize(m)) == m, six packet types, all field values, payload 0..maxlen symbolic bytes",
-				Quick: q(map[string]int{"maxlen": 8}), Thorough: q(map[string]int{"maxlen": 64})},
-			{Pkg: "gbn", Harness: "VH_C19_GBN_Canon", MustReach: []string{"canon"}, What: "any bytes of length 0..maxlen that deserialise re-serialise to an equal value",
-				Quick: q(map[string]int{"maxlen": 8}), Thorough: q(map[string]int{"maxlen": 64})},
-		},
-		Bounds: []string{"payload / packet length 0..8 quick, 0..64 thorough; every byte and flag value symbolic"},
+		Assumptions: commonAssumptions,
+		Bounds:      []string{"window size n symbolic in 1..254; base, top, seq full 8-bit domains"},
 	},
 	"C14": {
 		ID: "C14",
 		Runs: []Run{
 			{Pkg: "gbn", Harness: "VH_C14_Small", MustReach: []string{"sent"}, What: "two consecutive messages, every (length, maxChunkSize) pair, symbolic contents: one Recv per Send, equal bytes",
-				Quick: q(map[string]int{"maxlen": 4, "maxchunk": 5}), Thorough: q(map[string]int{"maxlen": 9, "maxchunk": 10})},
+				Quick: q(P("maxlen", 4, "maxchunk", 5)), Thorough: q(P("maxlen", 9, "maxchunk", 10))},
 			{Pkg: "gbn", Harness: "VH_C14_Chunks", MustReach: []string{"chunks"}, What: "chunk sizes, FinalChunk placement and chunk contents",
-				Quick: q(map[string]int{"maxlen": 6, "maxchunk": 4}), Thorough: q(map[string]int{"maxlen": 16, "maxchunk": 9})},
+				Quick: q(P("maxlen", 6, "maxchunk", 4)), Thorough: q(P("maxlen", 16, "maxchunk", 9))},
 			{Pkg: "gbn", Harness: "VH_C14_RecvDeadline", MustReach: []string{"deadline"}, Synctest: true, What: "receive deadline expiring inside a message, Recv retried (virtual time, producer goroutine)",
-				Quick: q(map[string]int{"maxlen": 4}), Thorough: q(map[string]int{"maxlen": 6})},
+				Quick: q(P("maxlen", 4)), Thorough: q(P("maxlen", 6))},
 			{Pkg: "gbn", Harness: "VH_C14_SendDeadline", MustReach: []string{"send-deadline"}, Synctest: true, What: "send deadline expiring inside a message, Send retried",
-				Quick: q(map[string]int{"maxlen": 3}), Thorough: q(map[string]int{"maxlen": 5})},
+				Quick: q(P("maxlen", 3)), Thorough: q(P("maxlen", 5))},
 		},
-		Bounds: []string{"payload 0..4 x chunk 0..5 (quick), 0..9 x 0..10 (thorough), sequences of 2 messages; deadlines at every chunk boundary"},
-		Outside: []string{"large payloads (symbolic-length variant not registered yet)", "transport faults (covered by C01)"},
+		Assumptions: commonAssumptions,
+		Bounds:      []string{"payload 0..4 x chunk 0..5 (quick), 0..9 x 0..10 (thorough), sequences of 2 messages; deadlines at every chunk boundary"},
+		Outside:     []string{"transport faults (covered by C01)"},
+	},
+	"C19": {
+		ID: "C19",
+		Runs: []Run{
+			{Pkg: "gbn", Harness: "VH_C19_GBN_RT", MustReach: []string{"roundtrip"}, What: "Deserialize(Serialize(m)) == m, six packet types, all field values, payload 0..maxlen symbolic bytes",
+				Quick: q(P("maxlen", 8)), Thorough: q(P("maxlen", 64))},
+			{Pkg: "gbn", Harness: "VH_C19_GBN_Canon", MustReach: []string{"canon"}, What: "any bytes of length 0..maxlen that deserialise re-serialise to an equal value",
+				Quick: q(P("maxlen", 8)), Thorough: q(P("maxlen", 64))},
+		},
+		Assumptions: commonAssumptions,
+		Bounds:      []string{"payload / packet length 0..8 quick, 0..64 thorough; every byte and flag value symbolic"},
+	},
+	"C20": {
+		ID: "C20",
+		Runs: []Run{
+			{Pkg: "gbn", Harness: "VH_C20_Step", MustReach: []string{"step"}, Synctest: true, What: "one Sent/Received event (every packet type, every sequence number) from an arbitrary valid adaptive TimeoutManager state, symbolic clock", Quick: q(nil)},
+			{Pkg: "gbn", Harness: "VH_C20_NoSampleAfterResend", MustReach: []string{"syn-resent", "data-resent"}, Synctest: true, What: "a retransmitted DATA / resent SYN never yields a round-trip sample", Quick: q(nil)},
+			{Pkg: "gbn", Harness: "VH_C20_Static", MustReach: []string{"static"}, Synctest: true, What: "two arbitrary events never change a static timeout", Quick: q(nil)},
+			{Pkg: "gbn", Harness: "VH_C20_BoostFloor", MustReach: []string{"floor"}, What: "float32 boost arithmetic (SMT FloatingPoint): boosted value >= base, == base when the count is reset", Quick: q(nil)},
+			{Pkg: "gbn", Harness: "VH_C20_GetResend", MustReach: []string{"getresend"}, What: "GetResendTimeout returns the booster's value", Quick: q(nil)},
+		},
+		Assumptions: append([]string{"state invariant of harness/gbn/c20.go (vTM)"}, commonAssumptions...),
+		Bounds:      []string{"durations <= 2^40 ns, boost count <= 1024, percent in (0,1], multiplier in {1,2,5,16}, update frequency in {1,2,100}"},
+		Outside:     []string{"durations above 2^40 ns, boost counts above 1024 (float32->int64 conversion overflow is outside the claim)"},
 	},
 }
